@@ -78,6 +78,15 @@ impl<S: Read + Write> Stream<S> {
         Ok(buffer.len())
     }
 
+    /// Is there decrypted data waiting inside the TLS layer ?
+    /// Such data are not visible on the underlying socket anymore
+    pub fn has_buffered_data(&self) -> bool {
+        match self {
+            Stream::Ssl(e) => e.buffered_read_size().map(|size| size > 0).unwrap_or(false),
+            _ => false
+        }
+    }
+
     /// Shutdown the stream
     /// Only works when stream is a SSL stream
     pub fn shutdown(&mut self) -> RdpResult<()> {
@@ -214,6 +223,12 @@ impl<S: Read + Write> Link<S> {
     /// Only works on SSL Stream
     pub fn shutdown(&mut self) -> RdpResult<()> {
         self.stream.shutdown()
+    }
+
+    /// True if data already received are waiting in the stream
+    /// without being visible on the underlying socket
+    pub fn has_buffered_data(&self) -> bool {
+        self.stream.has_buffered_data()
     }
 
     #[cfg(feature = "integration")]
